@@ -105,7 +105,8 @@ RefNode(k, loc, rest, isHeader) ==
     LET h == Find(rest, cHash)
         name == IF h = 0 THEN rest ELSE SubSeq(rest, 1, h - 1)
         ext == IF h = 0 THEN <<>> ELSE Drop(rest, h - 1)
-    IN IF name = <<>> \/ Has(name, cDollar) THEN Node("U")             \* name = *CHAR admits the empty name and "$": not judged
+    IN IF name = <<>> \/ Has(name, cDollar) \/ name[1] = 46 \/ name[Len(name)] = 46 THEN Node("U")
+          \* name = *CHAR admits the empty name, "$" and a leading / trailing "." (indistinguishable from a doubled separator): not judged
        ELSE IF isHeader /\ \E i \in 1..Len(name) : ~IsTChar(name[i]) THEN Node("malformed")    \* token = 1*tchar
        ELSE IF h = 0 THEN [Node(k) EXCEPT !.loc = loc, !.name = name]
        ELSE IF StartsWith(ext, sRegex) /\ Drop(ext, Len(sRegex)) \in Catalogue
